@@ -129,6 +129,45 @@ def sliceAxis (a : ND α) (k lo hi : Nat) : ND α :=
 def setSub (a : ND α) (idx : List Nat) (v : ND α) : ND α :=
   ofFn a.shape (fun ix => if ix.take idx.length = idx then v.get (ix.drop idx.length) else a.get ix)
 
+/-! ### indexing / assignment on the LAST axis (`a[..., j]`, `a[..., lo:hi]`, `np.delete(a, c, -1)`,
+`out[..., j] = v`, `out[..., lo:hi] = v`, `out[..., idx] = v`) -/
+
+/-- `a[..., j]` -/
+def selectLast (a : ND α) (j : Nat) : ND α :=
+  ofFn a.shape.dropLast (fun ix => a.get (ix ++ [j]))
+
+/-- `a[..., lo:hi]` (`lo ≤ hi ≤ a.shape[-1]`) -/
+def sliceLast (a : ND α) (lo hi : Nat) : ND α :=
+  ofFn (a.shape.dropLast ++ [hi - lo]) (fun ix => a.get (ix.dropLast ++ [ix.getLastD 0 + lo]))
+
+/-- `np.delete(a, c, axis=-1)` (`c < a.shape[-1]`) -/
+def deleteLast (a : ND α) (c : Nat) : ND α :=
+  ofFn (a.shape.dropLast ++ [a.shape.getLastD 0 - 1])
+    (fun ix => a.get (ix.dropLast ++ [if ix.getLastD 0 < c then ix.getLastD 0 else ix.getLastD 0 + 1]))
+
+/-- `np.zeros(shape)` / `np.zeros_like` (any constant) -/
+def full (s : List Nat) (x : α) : ND α := ofFn s (fun _ => x)
+
+/-- `out[..., j] = x` for a scalar `x` (returns the new value of `out`) -/
+def setLastConst (out : ND α) (j : Nat) (x : α) : ND α :=
+  ofFn out.shape (fun ix => if ix.getLastD 0 = j then x else out.get ix)
+
+/-- `out[..., j] = v` where `v.shape = out.shape[:-1]` -/
+def setLastIndex (out : ND α) (j : Nat) (v : ND α) : ND α :=
+  ofFn out.shape (fun ix => if ix.getLastD 0 = j then v.get ix.dropLast else out.get ix)
+
+/-- `out[..., lo:hi] = v` where `v.shape = out.shape[:-1] + (hi-lo,)` -/
+def setLastSlice (out : ND α) (lo hi : Nat) (v : ND α) : ND α :=
+  ofFn out.shape (fun ix =>
+    let j := ix.getLastD 0
+    if lo ≤ j ∧ j < hi then v.get (ix.dropLast ++ [j - lo]) else out.get ix)
+
+/-- `out[..., idx] = v` for a list `idx` of distinct positions (`v.shape = out.shape[:-1] + (len idx,)`) -/
+def setLastIdx (out : ND α) (idx : List Nat) (v : ND α) : ND α :=
+  ofFn out.shape (fun ix =>
+    let k := idx.idxOf (ix.getLastD 0)
+    if k < idx.length then v.get (ix.dropLast ++ [k]) else out.get ix)
+
 /-! ### reshape / flatten: data unchanged -/
 
 /-- `a.reshape(s)` for a fully specified shape `s` -/
